@@ -1,4 +1,4 @@
-import Rangers.Proofs.TrieRun
+import Rangers.Proofs.TrieIterBytes
 /-!
 # C02 — the state trie root is the canonical Merkle-Patricia commitment of its content
 
@@ -93,5 +93,64 @@ example : finalMap [.upd [1] [7], .commit, .upd [2] [8], .upd [3] [9], .del [3],
   by_cases h1 : k = [1] <;> by_cases h2 : k = [2] <;> by_cases h3 : k = [3] <;> simp_all
 
 theorem rootHash_empty (H : Bytes → Bytes) : rootHash H .nil = emptyRoot := rfl
+
+/-! ## iteration -/
+
+/-- the iterator returns strictly ascending hex paths (terminator greatest) — for *every* trie,
+    so no pair is returned twice -/
+theorem iter_sorted_paths (t : Node) : (iter t).Pairwise (fun e1 e2 => e1.1 < e2.1) := sortedKeys_iter t
+
+/-- **completeness**: after any history, full iteration returns exactly the live pairs. -/
+theorem iter_complete (ops : List Op) (k v : Bytes) :
+    (k, v) ∈ iterFrom (run ops) [] ↔ finalMap ops k = some v :=
+  mem_iterFrom_nil (represents_run ops) k v
+
+/-- **order, as implemented**: ascending in hex-path order, where the terminator sorts last. -/
+theorem iter_sorted_hex (ops : List Op) :
+    (iterFrom (run ops) []).Pairwise (fun e1 e2 => keybytesToHex e1.1 < keybytesToHex e2.1) :=
+  iterFrom_sorted_hex (represents_run ops)
+
+/-- the same order expressed on byte keys: ascending bytewise, *except* that a key comes after
+    every longer key it is a proper prefix of. -/
+theorem iter_order_bytes (ops : List Op) :
+    (iterFrom (run ops) []).Pairwise
+      (fun e1 e2 => (e1.1 < e2.1 ∧ ¬ e1.1 <+: e2.1) ∨ (e2.1 <+: e1.1 ∧ e2.1 ≠ e1.1)) :=
+  (iter_sorted_hex ops).imp (fun h => (hex_lt_iff _ _).mp h)
+
+/-- The property's clause "iteration returns the live pairs in ascending key order", read with
+    the bytewise order on keys, for arbitrary byte keys. -/
+def FullStatementIterAscending : Prop :=
+  ∀ ops : List Op, (iterFrom (run ops) []).Pairwise (fun e1 e2 => e1.1 < e2.1)
+
+/-- proved restriction: ascending bytewise whenever no live key is a proper prefix of another
+    (e.g. all keys of one length, as for hashed / address keys). -/
+theorem iter_sorted_complete_partial (ops : List Op)
+    (hpf : ∀ k1 k2, (finalMap ops k1).isSome → (finalMap ops k2).isSome → k1 <+: k2 → k1 = k2) :
+    (iterFrom (run ops) []).Pairwise (fun e1 e2 => e1.1 < e2.1) := by
+  apply List.Pairwise.imp_of_mem _ (iter_order_bytes ops)
+  intro a b ha hb hab
+  rcases hab with ⟨h, _⟩ | ⟨h1, h2⟩
+  · exact h
+  · have la := (iter_complete ops a.1 a.2).mp ha
+    have lb := (iter_complete ops b.1 b.2).mp hb
+    exact absurd (hpf b.1 a.1 (by simp [lb]) (by simp [la]) h1) h2
+
+-- non-vacuity: a prefix-free content with a shared prefix
+example : ∀ k1 k2, (finalMap [.upd [1, 2] [7], .upd [1, 3] [8]] k1).isSome →
+    (finalMap [.upd [1, 2] [7], .upd [1, 3] [8]] k2).isSome → k1 <+: k2 → k1 = k2 := by
+  intro k1 k2 h1 h2 hp
+  simp only [finalMap, List.foldl, specStep] at h1 h2
+  by_cases a1 : k1 = [1, 3] <;> by_cases a2 : k1 = [1, 2] <;> by_cases b1 : k2 = [1, 3] <;> by_cases b2 : k2 = [1, 2] <;>
+    simp_all
+
+/-- the full clause is false of the model (and of the code: the same history is replayed on the
+    implementation by the searcher, known finding `iter-order-prefix-keys`): after writing keys
+    `00` and `0000` the longer key is returned first. -/
+theorem iter_ascending_counterexample : ¬ FullStatementIterAscending := by
+  intro h
+  have := h [.upd [0] [1], .upd [0, 0] [2]]
+  have e : iterFrom (run [.upd [0] [1], .upd [0, 0] [2]]) [] = [([0, 0], [2]), ([0], [1])] := by decide
+  rw [e] at this
+  simp at this
 
 end Rangers.Props.C02
